@@ -22,7 +22,8 @@ META = dict(
               "time (whole seconds up to 10 years; one job with microsecond resolution), interest 7 % per {1 day, 365 days, no period}, interest symbol equal "
               "to / different from the borrowed symbol (price from {100, 31234.56}); query, repay, repay again, repay "
               "unknown id; auto-repay: 2 open loans in the symbol an auto-repay limit/market order acquires, symbolic "
-              "principals and balances, one bar",
+              "principals and balances, one bar; the same with a limit order that trades in part under "
+              "VolumeShareImpact (bar volume 4 or 10) and is then cancelled",
         thorough="3 open loans for the auto-repay clause, sub-second elapsed times (microseconds)"),
     stubs=hist.BASE_STUBS + ["the name Decimal in basana.backtesting.lending.margin -> factory that lets the symbolic "
                              "elapsed/period ratio through as an exact rational"],
@@ -33,7 +34,8 @@ META = dict(
     outside=["more than 3 loans", "interest conditions changing while a loan is open"],
     required_covers=["a loan was repaid", "a repayment was refused for lack of funds", "the minimum interest applied",
                      "proportional interest applied", "an auto-repay order repaid a loan",
-                     "an auto-repay order could not afford a loan"],
+                     "an auto-repay order could not afford a loan",
+                     "a partially filled auto-repay order was cancelled"],
 )
 
 
@@ -146,15 +148,16 @@ def interest(ctx, same_symbol=True, period_days=365, sub_second=False):
         ctx.prove(False, "C11 an unknown loan cannot be repaid")
     except errors.Error:
         pass
-    ctx.cover("an auto-repay order repaid a loan")
-    ctx.cover("an auto-repay order could not afford a loan")
 
 
-def auto_repay(ctx, nloans=2, kind="market", min_interest="0"):
+def auto_repay(ctx, nloans=2, kind="market", min_interest="0", partial_cancel=False):
     """An auto-repay buy order that traded: open loans in the acquired symbol are repaid largest first as far as funds
     allow; loans are closed only by that, never otherwise."""
+    # partial_cancel: limited liquidity (25 % of a bar volume of 4 or 10), so that the order trades only in part and is
+    # then cancelled - it still "traded", so the loans must be repaid when it closes
+    cfg = dict(liq="vsi", vols=["4", "10"], namounts=1) if partial_cancel else dict(namounts=2)
     w = World(ctx, props=(), lend="margin", closes=["100", "31234.56"], margin_req="0", min_interest=min_interest,
-              subscribe=False, namounts=2, fee="none")
+              subscribe=False, fee="none", **cfg)
     w.feed_bar("b0")
     lids = []
     for n in range(nloans):
@@ -170,12 +173,14 @@ def auto_repay(ctx, nloans=2, kind="market", min_interest="0"):
     ctx.prove(sorted(before["open_loans"]) == sorted(lids), "C11 loans stay open until something repays them")
     w.feed_bar("b1")
     info = w.info(oid)
+    if partial_cancel and info.is_open and bool(info.amount_filled > 0):
+        ctx.cover("a partially filled auto-repay order was cancelled")
+        w.cancel(oid)
+        info = w.info(oid)
     after = w.snapshot()
     if info.is_open or not bool(info.amount_filled > 0):
         ctx.prove(sorted(after["open_loans"]) == sorted(lids),
                   "C11 loans are closed only by a repayment, an auto-repay order that traded, or a rolled back request")
-        for lab in META["required_covers"]:
-            ctx.cover(lab)
         return
     # the order traded and closed: replay the documented greedy rule on the balances right after the fill
     loans = {l.id: l for l in run(w.e.get_loans())}
@@ -204,9 +209,6 @@ def auto_repay(ctx, nloans=2, kind="market", min_interest="0"):
             btc = btc - principal
             usd = usd - paid
             ctx.prove(lid in info.loan_ids, "C11 a loan repaid by an order is associated with that order")
-    for lab in ("a loan was repaid", "a repayment was refused for lack of funds", "the minimum interest applied",
-                "proportional interest applied"):
-        ctx.cover(lab)
 
 
 class _Key:
@@ -230,6 +232,10 @@ def jobs(tier):
             js.append(Job("auto-repay %s 2 loans min_interest=%s" % (kind, mi), "auto_repay",
                           dict(nloans=2, kind=kind, min_interest=mi), validate_every=30, sample_every=60,
                           max_paths=200000, split=64))
+    for mi in ("0", "0.01"):
+        js.append(Job("auto-repay limit order partially filled, then cancelled min_interest=%s" % mi, "auto_repay",
+                      dict(nloans=2, kind="limit", min_interest=mi, partial_cancel=True), validate_every=30,
+                      sample_every=60, max_paths=200000, split=64))
     js.append(Job("interest sub-second elapsed time", "interest", dict(same_symbol=True, period_days=1, sub_second=True),
                   validate_every=5, sample_every=10, prove_timeout=120000))
     if tier == "thorough":
